@@ -29,7 +29,7 @@ var harness = &rt.Task{ID: "harness", Node: -1, Name: "harness"}
 // Mutex
 
 type mstate struct {
-	mu      sync.Mutex
+	mu      imutex
 	id      int64
 	owner   *rt.Task
 	waiters []*rt.Task
@@ -187,11 +187,15 @@ func (m *Mutex) Unlock() {
 // RWMutex
 
 type rwstate struct {
-	mu       sync.Mutex
+	mu       imutex
 	id       int64
 	writer   *rt.Task
 	readers  map[*rt.Task]int
 	wwaiting int
+	// race-detector addresses, used exactly as sync.RWMutex uses readerSem and
+	// writerSem: readers are ordered after writers and writers after readers,
+	// readers are not ordered among themselves
+	rsem, wsem [8]byte
 	waiters  []*rt.Task
 }
 
@@ -266,7 +270,8 @@ func (m *RWMutex) Lock() {
 			st.writer = t
 			st.mu.Unlock()
 			t.Hold(rwTarget{st})
-			raceAcquire(st)
+			raceAcquire(&st.rsem)
+			raceAcquire(&st.wsem)
 			return
 		}
 		st.wwaiting++
@@ -300,7 +305,7 @@ func (m *RWMutex) Unlock() {
 		return
 	}
 	o := st.writer
-	raceRelease(st)
+	raceRelease(&st.rsem)
 	st.writer = nil
 	ws := st.waiters
 	st.waiters = nil
@@ -339,7 +344,7 @@ func (m *RWMutex) RLock() {
 			st.readers[t]++
 			st.mu.Unlock()
 			t.Hold(rwTarget{st})
-			raceAcquire(st)
+			raceAcquire(&st.rsem)
 			return
 		}
 		st.waiters = append(st.waiters, t)
@@ -367,7 +372,7 @@ func (m *RWMutex) RUnlock() {
 		}
 		panic("simsync: RUnlock of unlocked rwmutex")
 	}
-	raceReleaseMerge(st)
+	raceReleaseMerge(&st.wsem)
 	st.readers[t]--
 	var ws []*rt.Task
 	if st.readers[t] == 0 {
@@ -396,7 +401,7 @@ func (r *rlocker) Unlock() { (*RWMutex)(r).RUnlock() }
 
 type Cond struct {
 	L       Locker
-	mu      sync.Mutex
+	mu      imutex
 	id      int64
 	waiters []*rt.Task
 	real    *sync.Cond
@@ -466,7 +471,7 @@ func (c *Cond) Broadcast() {
 // WaitGroup
 
 type WaitGroup struct {
-	mu      sync.Mutex
+	mu      imutex
 	n       int
 	waiters []*rt.Task
 	real    sync.WaitGroup
